@@ -252,4 +252,46 @@ theorem C17_tiebreak_uniform (n : Nat) (xs σ : List Cand) (hnd : xs.Nodup) (hle
         push_cast
         field_simp
 
+/-! ### several seats: the law of the winner sequence is the product of the round laws -/
+
+/-- sequential composition: draw `c` from `d`, then the rest from `F c` -/
+theorem prob_seq_cons (d : Dist Cand) (F : Cand → Dist (List Cand)) (c : Cand) (r : List Cand) :
+    (Dist.bind d (fun c' => Dist.bind (F c') (fun rest => Dist.pure (c' :: rest)))).prob (c :: r) =
+      d.prob c * (F c).prob r := by
+  rw [prob_bind]
+  simp only [prob_bind_cons]
+  obtain ⟨l⟩ := d
+  unfold Dist.prob
+  simp only
+  induction l with
+  | nil => simp
+  | cons e es ih =>
+    simp only [List.map_cons, rsum_cons, List.filter_cons, ih]
+    by_cases h : e.1 = c
+    · simp only [h, if_true, decide_true, List.map_cons, rsum_cons]
+      ring
+    · simp only [h, if_false, decide_false, Bool.false_eq_true]
+      ring
+
+/-- law of the first `m` RandomDictator winners: a round on the current profile, then the remaining
+seats on the profile without the winner (`remove_cand`, as `rdLoop` does) -/
+def rdSeqDist : Nat → Profile → Dist (List Cand)
+  | 0, _ => Dist.pure []
+  | m + 1, p => Dist.bind (rdStepDist p) (fun c =>
+      Dist.bind (rdSeqDist m (removeCand [c] p)) (fun rest => Dist.pure (c :: rest)))
+
+/-- **Multi-seat RandomDictator.** The probability that the seats go to `c :: r` in this order is the
+round law of `c` on the current profile times the probability of `r` on the profile with `c` removed:
+the sequence law is the product of the round laws on the successively reduced profiles. -/
+theorem C17_rd_sequence (m : Nat) (p : Profile) (c : Cand) (r : List Cand) :
+    (rdSeqDist (m + 1) p).prob (c :: r) = (rdStepDist p).prob c * (rdSeqDist m (removeCand [c] p)).prob r := by
+  rw [rdSeqDist]
+  exact prob_seq_cons _ _ c r
+
+/-- closed form for two seats -/
+theorem C17_rd_two_seats (p : Profile) (c₁ c₂ : Cand) :
+    (rdSeqDist 2 p).prob [c₁, c₂] = (rdStepDist p).prob c₁ * (rdStepDist (removeCand [c₁] p)).prob c₂ := by
+  rw [C17_rd_sequence, C17_rd_sequence]
+  simp [rdSeqDist, prob_pure]
+
 end VK
